@@ -2,7 +2,7 @@
 # usage: seedrun.sh <seed dir name, e.g. C08-1> <property>...   applies the seeded patch to /repo, runs the quick checks, reverts.
 cd /verif
 s=$1; shift
-if ! git -C /repo apply /verif/seeded/$s/patch.diff 2>/dev/null; then git -C /repo apply -3 /verif/seeded/$s/patch.diff || { echo "$s: patch does not apply"; exit 3; }; fi
+if ! git -C /repo apply /verif/seeded/$s/patch.diff 2>/dev/null; then echo "$s: patch does not apply to the current tree"; exit 3; fi
 for p in "$@"; do
   out=$(./check $p 2>/dev/null)
   rc=$?
